@@ -44,7 +44,7 @@ ASSUMPTIONS = {
 TIERS = {
     'C16': {'quick': dict(runs=1600, budget_s=480, hashseeds=4, minimise_s=90),
             'thorough': dict(runs=None, budget_s=600, hashseeds=16, minimise_s=240)},
-    'C18': {'quick': dict(runs=480, budget_s=240, hashseeds=4, minimise_s=120, grace_s=240),
+    'C18': {'quick': dict(runs=640, budget_s=360, hashseeds=4, minimise_s=120, grace_s=240),
             'thorough': dict(runs=None, budget_s=900, hashseeds=16, minimise_s=300, grace_s=300)},
 }
 RUN_LIMIT_S = {'C16': 90, 'C18': 240}
